@@ -278,7 +278,7 @@ def explore (sp : Spec) (allow : Cfg → Label → Bool) : Nat → Cfg → List 
     else succs.foldl (fun a c' => explore sp allow n c' a) acc
 
 inductive Stop where
-  | live | before | inqueueGoaway | inqueueCancel | answering
+  | live | before | inqueueGoaway | inqueueCancel | answering | fullGoaway
   deriving Repr, DecidableEq
 
 def Stop.ofString : String → Option Stop
@@ -287,6 +287,7 @@ def Stop.ofString : String → Option Stop
   | "inqueue-goaway" => some .inqueueGoaway
   | "inqueue-cancel" => some .inqueueCancel
   | "answering" => some .answering
+  | "full-goaway" => some .fullGoaway
   | _ => none
 
 def headIsSignal (c : Cfg) : Bool :=
@@ -305,6 +306,8 @@ def stopAllow (s : Stop) (c : Cfg) (l : Label) : Bool :=
   | .answering, .dequeueOther | .answering, .dequeueMine => true
   | .inqueueGoaway, .exit => started
   | .inqueueCancel, .exit | .inqueueCancel, .dequeueMine | .inqueueCancel, .dequeueOther => started
+  -- queue full, a TorGoAway at its head: the loop frees one slot (drain) and exits
+  | .fullGoaway, .exit | .fullGoaway, .drain => true
   | _, _ => false
 
 def stopInit (sp : Spec) (s : Stop) (ctx : Bool) : Cfg :=
@@ -312,6 +315,7 @@ def stopInit (sp : Spec) (s : Stop) (ctx : Bool) : Cfg :=
   | .before => { init sp ctx true 0 with tear := 4 }
   | .inqueueGoaway => init sp ctx true 1
   | .answering => init sp ctx true 1
+  | .fullGoaway => init sp ctx false 511
   | _ => init sp ctx true 0
 
 def outcomes (sp : Spec) (s : Stop) (ctx : Bool) : List Term :=
